@@ -143,6 +143,16 @@ class CaseInvalid(Exception):
     pass
 
 
+import re as _re
+_MANGLED = _re.compile(r"^_[A-Za-z][A-Za-z0-9]*__\w+$")
+
+
+def is_class_private(key):
+    """a name-mangled attribute (`_Class__name`): the private state of a library class, whatever it is called today - by
+    Python's own convention not part of what a user observes of the object (the neighbour memo is one)"""
+    return bool(_MANGLED.match(key)) and not key.endswith("__")
+
+
 _COLLISION = []
 
 
